@@ -1,7 +1,7 @@
 (* C02 property theorems. This file contains only statements closed by
    [exact lemma] and Print Assumptions. *)
 From V Require Import Common.Base C02.Graph C02.Order C02.SpecESM C02.Wrap C02.Resolve C02.ResolveSpec
-  C02.DataUrl C02.SpecDataUrl C02.OrderProofs C02.OrderEsmProofs C02.ResolveProofs C02.WrapProofs C02.DataUrlProofs C02.ClassifyProofs C02.Emit C02.EmitProofs C02.ResolveChainProofs C02.ScanEsmProofs C02.ResolveDen C02.SpecDenProofs C02.StarHitsProofs C02.StarDenProofs C02.LinkDenProofs C02.ResolveStarsProofs C02.EvalOrder C02.EvalOrderProofs C02.WrapMinProofs C02.WrapGraph C02.WrapExactProofs C02.Interop C02.InteropProofs.
+  C02.DataUrl C02.SpecDataUrl C02.OrderProofs C02.OrderEsmProofs C02.ResolveProofs C02.WrapProofs C02.DataUrlProofs C02.ClassifyProofs C02.Emit C02.EmitProofs C02.ResolveChainProofs C02.ScanEsmProofs C02.ResolveDen C02.SpecDenProofs C02.StarHitsProofs C02.StarDenProofs C02.LinkDenProofs C02.ResolveStarsProofs C02.EvalOrder C02.EvalOrderProofs C02.WrapMinProofs C02.WrapGraph C02.WrapExactProofs C02.Interop C02.InteropProofs C02.ResolveCycleProofs.
 From Coq Require Import Permutation.
 
 (* every file of the chunk is emitted at most once ("every module body runs at most once") *)
@@ -375,3 +375,15 @@ Theorem interop_value_is_native_refuted : exists typed form c name,
   bundle_get typed form c name <> native_get c name.
 Proof. exact bundle_get_refuted_ex. Qed.
 Print Assumptions interop_value_is_native_refuted.
+
+(* export-star cycles beyond the three-file domain, still by computation: for every import of all
+   65536 graphs of four files over one export name (absent or local in each file; three of the
+   files star-export any subset of the four files, so the domain contains every cycle of export
+   stars of length one, two and three with chords and with diamonds onto the cycle) the linker's
+   verdict equals ResolveExport's.  A proof for cycles of export stars of arbitrary length remains
+   open: resolve_is_spec_partial needs the rank certificate a cycle does not have *)
+Theorem resolve_is_spec_partial_bounded4 : forall fs, In fs domain3 ->
+  let g := graph_of [1; 2; 3; 4]%nat [1] fs in
+  forall ni, In ni (m_imports (getm g (S (length fs)))) -> agrees g (seq 0 (length g)) (S (length fs)) ni = true.
+Proof. exact bounded4_all. Qed.
+Print Assumptions resolve_is_spec_partial_bounded4.
